@@ -109,3 +109,101 @@ def check_sorted_invariant(ctx, rule: str, cls: str = "AbsoluteSequence", method
                           f"time, and the conversion to the relative view (which walks the list in order) yields wrong waits",
                   file=fi.file, node=bad[0][1] if bad else fi.node)
     return n
+
+
+def check_sorted_construction(ctx, rule: str, cls: str = "AbsoluteSequence") -> int:
+    """Every `AbsoluteSequence(messages=...)` constructed inside the library must hold a time-sorted list: the argument is
+    either derived in order from another absolute sequence's own list (a comprehension / list() / copy over `X._messages`,
+    which is sorted by the class invariant), or the new object is sorted before the function's normal exits."""
+    import ast as _ast
+    from ..astutil import attr_chain, call_method, short, ancestors, enclosing_function
+    p = ctx.p
+    n = 0
+    for fi in p.all_functions():
+        for c in _ast.walk(fi.node):
+            if not isinstance(c, _ast.Call):
+                continue
+            is_ctor = (isinstance(c.func, _ast.Name) and c.func.id == cls) or \
+                      (attr_chain(c.func) == ["self", "__class__"] and fi.cls in ("AbstractSequence", cls))
+            if not is_ctor:
+                continue
+            arg = c.args[0] if c.args else next((k.value for k in c.keywords if k.arg == "messages"), None)
+            if arg is None or (isinstance(arg, _ast.Constant) and arg.value is None):
+                continue
+            n += 1
+            inst = f"{fi.qualname}: `{short(c, 70)}`"
+            ctx.analysed(fi)
+
+            def ordered_source(e) -> bool:
+                if isinstance(e, _ast.ListComp) and len(e.generators) == 1:
+                    it = e.generators[0].iter
+                    return isinstance(it, _ast.Attribute) and it.attr == "_messages"
+                if isinstance(e, _ast.Call) and isinstance(e.func, _ast.Name) and e.func.id in ("list", "tuple") and e.args:
+                    return isinstance(e.args[0], _ast.Attribute) and e.args[0].attr == "_messages"
+                if isinstance(e, _ast.Attribute) and e.attr == "_messages":
+                    return True
+                return False
+            if ordered_source(arg):
+                ctx.ok(rule, inst, "argument derived in order from a sequence's own list")
+                continue
+            # otherwise: the created object must be sorted before the function exits
+            st = c
+            while not isinstance(st, _ast.stmt):
+                st = st._parent
+            target = None
+            if isinstance(st, _ast.Assign) and len(st.targets) == 1:
+                target = st.targets[0]
+            tsrc = _ast.unparse(target) if target is not None else None
+
+            def trigger(s, st=st):
+                return s is st
+
+            def discharge(x, tsrc=tsrc):
+                if isinstance(x, _ast.Call) and isinstance(x.func, _ast.Attribute) and x.func.attr in ("sort", "normalise_absolute"):
+                    return tsrc is not None and _ast.unparse(x.func.value) == tsrc
+                return False
+            bad = MustFollow(trigger, discharge).run(fi.node)
+            ctx.check(not bad and tsrc is not None, rule, inst + " is sorted before use", function=fi.qualname,
+                      construct=f"{cls} built from an arbitrary message list without sorting it",
+                      message=f"`{short(c, 70)}` stores the caller's order: the absolute view must be ordered by time (the conversion to the relative view "
+                              f"and get_sequence_duration rely on it)", file=fi.file, node=c)
+    # raw writes to the list of a locally built absolute sequence, outside the class that owns the ordering
+    for fi in p.all_functions():
+        if fi.cls in ("AbstractSequence", cls):
+            continue
+        locals_ = {}
+        for a in _ast.walk(fi.node):
+            if isinstance(a, _ast.Assign) and len(a.targets) == 1 and isinstance(a.targets[0], _ast.Name) and isinstance(a.value, _ast.Call) \
+                    and isinstance(a.value.func, _ast.Name) and a.value.func.id == cls:
+                locals_[a.targets[0].id] = a
+        if not locals_:
+            continue
+        for st in _ast.walk(fi.node):
+            if not isinstance(st, _ast.stmt):
+                continue
+            who = None
+            if isinstance(st, (_ast.Assign, _ast.AugAssign)):
+                for t in (st.targets if isinstance(st, _ast.Assign) else [st.target]):
+                    b = t.value if isinstance(t, _ast.Subscript) else t
+                    if isinstance(b, _ast.Attribute) and b.attr == "_messages" and isinstance(b.value, _ast.Name) and b.value.id in locals_:
+                        who = b.value.id
+            elif isinstance(st, _ast.Expr) and isinstance(st.value, _ast.Call) and isinstance(st.value.func, _ast.Attribute) \
+                    and st.value.func.attr in ("append", "extend", "insert", "reverse", "__setitem__"):
+                b = st.value.func.value
+                if isinstance(b, _ast.Attribute) and b.attr == "_messages" and isinstance(b.value, _ast.Name) and b.value.id in locals_:
+                    who = b.value.id
+            if who is None:
+                continue
+            n += 1
+
+            def trigger(s, st=st):
+                return s is st
+
+            def discharge(x, who=who):
+                return isinstance(x, _ast.Call) and isinstance(x.func, _ast.Attribute) and x.func.attr in ("sort", "normalise_absolute") \
+                    and isinstance(x.func.value, _ast.Name) and x.func.value.id == who
+            bad = MustFollow(trigger, discharge).run(fi.node)
+            ctx.check(not bad, rule, f"{fi.qualname}: raw write `{short(st, 60)}` is followed by a sort", function=fi.qualname,
+                      construct=f"raw write to the message list of a locally built {cls} without sorting it",
+                      message=f"`{short(st, 60)}` bypasses add_message's ordered insertion", file=fi.file, node=st)
+    return n
